@@ -463,25 +463,23 @@ Section Interp.
   (** [WithOptions._options] *)
   Definition with_opts (force : bool) (p o : dict) : dict := if force then mix o p else mix p o.
 
-  (** [WithOptions._preset(key, options, mixed)] (after fix f469561): the key's value is fully
-      determined by the pre-set options.  [None]: a lookup hit a scalar parent (TypeError). *)
+  (** [WithOptions._preset(key, options, mixed)] (after fixes f469561 and 6884003): the key's value is
+      fully determined by the pre-set options (and is still there in the mixed options).  [None]: a lookup hit a scalar parent (TypeError). *)
   Definition preset_drops (force : bool) (p o mixed : dict) (k : key) : option bool :=
     match k with [] => Some false | _ :: _ =>       (* a dotted key has at least one segment *)
     match lookup k (JObj p) with
     | TypeErr => None
     | Absent => Some false
     | Found pv =>
-        match lookup k (JObj o) with
+        match lookup k (JObj mixed) with
         | TypeErr => None
-        | Absent => Some true
-        | Found _ =>
-            if force then
-              match lookup k (JObj mixed) with
-              | Found mv => Some (json_eq mv pv)
-              | Absent => None         (* get_dotted_key raises KeyError: cannot happen when forced *)
-              | TypeErr => None
-              end
-            else Some false
+        | Absent => Some false       (* overlaid away: the caller put a non-section where the pre-set has one *)
+        | Found mv =>
+            match lookup k (JObj o) with
+            | TypeErr => None
+            | Absent => Some true
+            | Found _ => if force then Some (json_eq mv pv) else Some false
+            end
         end
     end
     end.
